@@ -52,21 +52,24 @@ def scaleExp (d : Nat) (e : Int) (n : Nat) : Nat × Nat × Bool :=
     let pw := pow10 e
     (mul d pw.1, n, pw.2)
 
+/-- the exponential part behind `e`/`E` and the optional sign: `eneg` the sign read, `p` the text there, `n2 = p - str`;
+    `n` is the offset of the `e` (where `a` still points), `prev` the byte before it -/
+def expTail (d : Nat) (eneg : Bool) (p : Bytes) (n2 n prev : Nat) : Nat × Nat × Bool :=
+  if isDigitC (chd p) then
+    let ds := p.takeWhile isDigitC
+    scaleExp d (if eneg then -(expVal ds : Int) else (expVal ds : Int)) (n2 + ds.length)
+  else if !isDigitC prev then (d, 0, false)
+  else if chd p = 0 then (d, n, false)
+  else scaleExp d 0 n2
+
 /-- from `if ((*p == 'E') || (*p == 'e'))` to the end.  `d` is the value so far, `p` the remaining text, `n = p - str`,
     `prev = *(p - 1)`; at this point `a == p` in the C code whenever `a` is read. -/
 def expPart (d : Nat) (p : Bytes) (n prev : Nat) : Nat × Nat × Bool :=
   if chd p = 69 ∨ chd p = 101 then
     let p1 := p.drop 1
-    let sg : Bool × Bytes × Nat :=
-      if chd p1 = 45 then (true, p1.drop 1, n + 2) else if chd p1 = 43 then (false, p1.drop 1, n + 2) else (false, p1, n + 1)
-    let p2 := sg.2.1
-    if isDigitC (chd p2) then
-      let ds := p2.takeWhile isDigitC
-      let e : Int := if sg.1 then -(expVal ds : Int) else (expVal ds : Int)
-      scaleExp d e (sg.2.2 + ds.length)
-    else if !isDigitC prev then (d, 0, false)
-    else if chd p2 = 0 then (d, n, false)
-    else scaleExp d 0 sg.2.2
+    if chd p1 = 45 then expTail d true (p1.drop 1) (n + 2) n prev
+    else if chd p1 = 43 then expTail d false (p1.drop 1) (n + 2) n prev
+    else expTail d false p1 (n + 1) n prev
   else if n > 0 ∧ !isDigitC prev then (d, 0, false)
   else (d, n, false)
 
@@ -79,18 +82,20 @@ def fracPart (neg : Bool) (d0 : Nat) (p : Bytes) (n prev : Nat) : Nat × Nat × 
     expPart d' (p.drop (1 + fs.length)) (n + 1 + fs.length) (if fs.isEmpty then 46 else fs.getLast?.getD 0)
   else expPart d p n prev
 
+/-- behind the white space and the optional sign: `p` the text there, `n = p - str` -/
+def numPart (neg : Bool) (p : Bytes) (n : Nat) : Nat × Nat × Bool :=
+  if isDigitC (chd p) then
+    let ds := p.takeWhile isDigitC
+    fracPart neg (intLoop ds) (p.drop ds.length) (n + ds.length) (ds.getLast?.getD 0)
+  else if chd p ≠ 46 then (0, 0, false)
+  else fracPart neg 0 p n 0      -- `*p == '.'`: the byte before it is never looked at
+
 /-- `iwstrtod(str, &end)` -/
 def iwstrtodModel (str : Bytes) : Nat × Nat × Bool :=
   let ws := str.takeWhile isSpaceC
   let p0 := str.drop ws.length
-  let sg : Bool × Bytes × Nat :=
-    if chd p0 = 45 then (true, p0.drop 1, ws.length + 1)
-    else if chd p0 = 43 then (false, p0.drop 1, ws.length + 1) else (false, p0, ws.length)
-  let p1 := sg.2.1
-  if isDigitC (chd p1) then
-    let ds := p1.takeWhile isDigitC
-    fracPart sg.1 (intLoop ds) (p1.drop ds.length) (sg.2.2 + ds.length) (ds.getLast?.getD 0)
-  else if chd p1 ≠ 46 then (0, 0, false)
-  else fracPart sg.1 0 p1 sg.2.2 0      -- `*p == '.'`: the byte before it is never looked at
+  if chd p0 = 45 then numPart true (p0.drop 1) (ws.length + 1)
+  else if chd p0 = 43 then numPart false (p0.drop 1) (ws.length + 1)
+  else numPart false p0 ws.length
 
 end IwModel.Json
